@@ -228,10 +228,14 @@ theorem dm_eq_mixture_partial {Q V P : Type} [Semiring P] [AddCommMonoid V] [Mod
   rw [hmk]
   exact ⟨_, _, rfl, rfl, rfl⟩
 
-/-- **dm_mixture_or_refuse.** With fix C02-3 the density-matrix run of EVERY well-formed circuit is correct or
-refused: if no gate is conditioned on a bit written by an earlier measurement (`FF [] c.ops`, decidable from the
-circuit), it returns the probability-weighted mixture of the branches with probability 1; otherwise it raises
-`NotImplementedError`.  (The first half holds with or without the fix.) -/
+/-- **dm_mixture_or_refuse.** Stated for EVERY variant `cfg` of the code, in particular for the tree as it is
+(`cfg.dmRefuse = false`).  (1) For every well-formed circuit in which no gate is conditioned on a bit written by an
+EARLIER measurement (`FF [] c.ops`, decidable from the circuit; weaker than the hypothesis of
+`dm_eq_mixture_partial`), the density-matrix run returns the probability-weighted mixture of the branches with
+probability 1 — unconditionally.  (2) ONLY under the explicit hypothesis `cfg.dmRefuse = true` — the proposed and NOT
+applied patch fixes/C02-3, kept as a proposal — the remaining circuits are refused with `NotImplementedError`; for
+the tree as it is nothing is claimed about them here: they are the known finding (`C02_counterexample_dm_feedforward`
+shows the wrong result). -/
 theorem dm_mixture_or_refuse {Q V P : Type} [Semiring P] [AddCommMonoid V] [Module P V]
     (Bs : Backend Q P) (Bd : Backend V P) (dm : Q → V) (L : DmLink Bs Bd dm) (cfg : Cfg) (c : Circuit)
     (hc : c.Valid) (w : World V P) (q0 : Q) (cb : Option Ref) (hf : Fresh cfg cb) (mr : Option (List Int)) :
